@@ -703,6 +703,50 @@ def height_guard_edges(b, acc=()):
     return out
 
 
+def _height_cmp(b, sb, t):
+    """For a height-guard switch: (op, sum_on_left, negated) with op in gt/ge/lt/le/eq/ne normalised so that it reads `sum OP height`
+    (the side whose slice asks TermLike::height() is the height), following copies and `!`; None when the shape is not a plain comparison."""
+    l = operand_local(t["op"])
+    neg = False
+    for _ in range(8):
+        ds = [d for d in b.defs().get(l, ()) if d["kind"] in ("assign", "call") and b.def_reaches(d, sb)] if l is not None else []
+        if len(ds) != 1:
+            return None
+        d = ds[0]
+        if d["kind"] == "assign":
+            rv = d["rv"]
+            if rv["k"] == "un" and rv.get("op") == "Not":
+                neg = not neg
+                l = operand_local(rv.get("a"))
+                continue
+            if rv["k"] == "use" and rv["op"].get("k") in ("copy", "move") and not rv["op"]["place"]["p"]:
+                l = operand_local(rv["op"])
+                continue
+            if rv["k"] == "bin" and rv["op"] in ("Gt", "Ge", "Lt", "Le", "Eq", "Ne"):
+                opn = rv["op"].lower()
+                ha = b.slice(rv["a"], at=d["bb"])
+                hb = b.slice(rv["b"], at=d["bb"])
+                a_h = any(c.callee.get("trait") == K.TERMLIKE and K.meth(c.generic) == "height" for c in ha.calls)
+                b_h = any(c.callee.get("trait") == K.TERMLIKE and K.meth(c.generic) == "height" for c in hb.calls)
+            else:
+                return None
+        else:
+            c = d["call"]
+            m = re.search(r"std::cmp::Partial(?:Ord|Eq)::(gt|ge|lt|le|eq|ne)$", c.path)
+            if not m or len(c.args) != 2:
+                return None
+            opn = m.group(1)
+            ha, hb = b.slice_args(c, [0]), b.slice_args(c, [1])
+            a_h = any(k.callee.get("trait") == K.TERMLIKE and K.meth(k.generic) == "height" for k in ha.calls)
+            b_h = any(k.callee.get("trait") == K.TERMLIKE and K.meth(k.generic) == "height" for k in hb.calls)
+        if a_h == b_h:
+            return None
+        if a_h:      # `height OP sum`  ->  `sum OP' height`
+            opn = {"gt": "lt", "ge": "le", "lt": "gt", "le": "ge"}.get(opn, opn)
+        return opn, not a_h, neg
+    return None
+
+
 def rule_height_guard(ctx, crate, rule="R-HEIGHT-GUARD"):
     cfg = crate.config
     info = emitter_commit_info(ctx, crate, rule)
@@ -742,6 +786,21 @@ def rule_height_guard(ctx, crate, rule="R-HEIGHT-GUARD"):
         ctx.check(ok and leaves, rule, "overflow-edge-stops-painting", b.name, "%s:%d" % (b.file, t.get("line", 0)),
                   "when the next bar line would exceed the terminal height, no further line is painted before flush()",
                   "the height test does not stop painting (lines beyond the terminal height can be written and scroll the region)", cfg)
+        # a frame that needs exactly as many rows as the terminal has fits: at equality of (rows so far + this line's rows) and
+        # height() the test takes the edge on which the line is painted
+        cmpf = _height_cmp(b, sb, t)
+        if cmpf is not None and ok:
+            opn, sum_left, neg = cmpf
+            # truth of `sum OP height` at equality
+            at_eq = opn in ("ge", "le", "eq")
+            if neg:
+                at_eq = not at_eq
+            zero = [tb for v, tb in t["targets"] if v == 0]
+            eq_tgt = (t["otherwise"] if at_eq else (zero[0] if zero else None))
+            ctx.check(eq_tgt in fits, rule, "fits-when-equal", b.name, "%s:%d" % (b.file, t.get("line", 0)),
+                      "a line that exactly fills the remaining rows of the terminal is painted (the comparison is strict)",
+                      "when the rows painted so far plus the next bar line's rows equal the terminal height the line is dropped (`>=` for `>`): a frame that "
+                      "needs exactly as many rows as the terminal has loses its last line and the end-of-frame filler; on a 1x1 terminal nothing is ever painted", cfg)
         # compared value includes the running count
         runs = any(a.bb in {c.bb for c in sl.calls} or any(l in sl.locals for l in [K.operand_local(a.args[0])] if l is not None) for a in acc)
         run_ok = False
@@ -1323,7 +1382,9 @@ def rule_painted_line_terminated(ctx, crate, rule="R-PAINTED-LINE-TERMINATED", k
     fillers = [c for c in tl_calls(pb, "write_str") if c.bb not in paint_bbs and pb.in_loop(c.bb) and pb.slice_args(c, [1]).has_call(r"(alloc|std|core)::str::<impl str>::repeat")]
     for nx in pb.calls(r"std::iter::Iterator::next"):
         nsl = pb.slice_args(nx, [0])
-        if not nsl.has_call(r"std::iter::Iterator::enumerate") and not nsl.has_call(r"std::iter::Iterator::peekable"):
+        # .. or an index loop `for idx in 0..self.lines.len()`
+        over_len = any(k.matches(r"std::vec::Vec::<T, A>::len", r"core::slice::<impl \[T\]>::len") and pb.slice_args(k, [0]).has_field("lines") for k in nsl.calls)
+        if not nsl.has_call(r"std::iter::Iterator::enumerate") and not nsl.has_call(r"std::iter::Iterator::peekable") and not over_len:
             continue
         it_ls = {tl for a_ in nx.args[:1] if operand_local(a_) is not None for tl, tp in pb.ref_origins().get(operand_local(a_), ())} | \
                 ({operand_local(nx.args[0])} if nx.args and operand_local(nx.args[0]) is not None else set())
